@@ -19,7 +19,8 @@ TEXT = {
     "C12.compose": "C_::deepReport{Utilize,Change*}: returned utility = head.utility * sub.utility and returned prong = head.prong (the region's own index in "
                    "its parent); deepReportRandomize / ...Random: head utility * utilities[requested]; O_::deepReport*: head.utility * (sum of sub-states / WIDTH); "
                    "OS_<nonlast>::wideReport* = Initial + Remaining; CS_<split>::wideReport{Randomize,ChangeRandom} = l + r over adjacent sub-arrays",
-    "C12.delegate": "OS_<nonlast/last>::wideReportX delegates to Initial::deepReportX, CS_<single>::wideReportX to Single::deepReport{X or Change} "
+    "C12.delegate": "OS_<nonlast>::wideReportX and CS_<split>::wideReportX recurse into the same member of the remaining sub-states / halves; "
+                    "OS_<nonlast/last>::wideReportX delegates to Initial::deepReportX, CS_<single>::wideReportX to Single::deepReport{X or Change} "
                     "(the report kind is not switched on the way down)",
     "C12.rank-mask": "CS_<single>::wideReportRank stores and returns Single::deepReportRank; CS_<single>::wideReport{Randomize,ChangeRandom} store "
                      "(*ranks == top) ? sub-state utility : 0; resolveRandom visits only entries with ranks[i] == top",
@@ -198,6 +199,17 @@ def check_delegate(ctx, F):
             ctx.instance("C12.delegate", site, {"function": site, "loc": F.floc(fid), "delegate": sorted(got)})
             if got != {want}:
                 ctx.violation("C12.delegate", site, "%s (%s)" % (site, F.floc(fid)), "%s delegates to Initial::%s, expected %s" % (site, sorted(got), want), {})
+    # the recursion over the remaining siblings / the two halves stays in the same member
+    for cls, spec in (("OS_", "nonlast"), ("CS_", "split")):
+        for fid, b in insts(F, cls, None, spec=spec):
+            if not b["name"].startswith("wideReport"):
+                continue
+            site = "%s<%s>::%s/recursion" % (cls, spec, b["name"])
+            got = sorted(set(F.fn(c)["name"] for c in b.get("calls", ()) if F.fn(c).get("cls") == cls and F.fn(c)["name"].startswith("wideReport")))
+            ctx.instance("C12.delegate", site, {"function": site, "loc": F.floc(fid), "recursion": got})
+            if got != [b["name"]]:
+                ctx.violation("C12.delegate", site, "%s (%s)" % (site, F.floc(fid)),
+                              "%s<%s>::%s recurses into %s, expected %s of the remaining sub-states" % (cls, spec, b["name"], got, b["name"]), {})
     MAP = {"wideReportUtilize": "deepReportUtilize", "wideReportRank": "deepReportRank", "wideReportRandomize": "deepReportRandomize",
            "wideReportChangeComposite": "deepReportChange", "wideReportChangeResumable": "deepReportChange", "wideReportChangeSelectable": "deepReportChange",
            "wideReportChangeUtilitarian": "deepReportChange", "wideReportChangeRandom": "deepReportChange"}
